@@ -187,6 +187,13 @@ class Quad:
         return ((Q + Q.T) @ ax + l)[None, :]
 
 
+SPARSE_FORMATS = ["csr_array", "csr_matrix", "csc_array", "csc_matrix", "coo_array", "coo_matrix", "lil_array", "dok_matrix"]
+"""SciPy sparse containers accepted by the constructor of MDOLinearFunction (it converts them with ``tocsr()``)."""
+
+P_SPARSE = 0.3
+"""Probability that a linear leaf gets sparse coefficients (numeric workload only)."""
+
+
 def operand_from_description(d):
     k = d["kind"]
     if k == "poly":
@@ -234,11 +241,16 @@ def random_operand(rng, n, m, kinds, integer=False):
     raise KeyError(kind)
 
 
-def random_leaf(rng, n, m, integer=False, kinds=None):
+def random_leaf(rng, n, m, integer=False, kinds=None, p_sparse=None):
     kinds = kinds or (["poly", "poly", "linear", "quadratic"] if integer else
                       ["poly", "poly", "expsin", "linear", "linear", "quadratic"])
     f = random_operand(rng, n, m, kinds, integer)
-    if f.kind in ("linear", "quadratic"):
+    if f.kind == "linear" and not integer and rng.random() < (P_SPARSE if p_sparse is None else p_sparse):
+        # coefficients handed to MDOLinearFunction as a SciPy sparse container (some exact zeros for the pattern)
+        A = [[0.0 if rng.random() < 0.35 else v for v in row] for row in f.A]
+        f = Lin(A, f.b)
+        fmt = "sparse:" + SPARSE_FORMATS[int(rng.integers(len(SPARSE_FORMATS)))]
+    elif f.kind in ("linear", "quadratic"):
         fmt = "native"  # the gemseo class decides the format
     elif m == 1:
         fmt = ["float", "float", "arr1", "arr1g"][int(rng.integers(4))]
